@@ -358,12 +358,17 @@ def eval_extractor(unit, fn, nbytes, offset=0):
     bad = []
     pats = _patterns(nbytes)
     for pat in pats:
-        def deref(a, n, pat=pat):
+        over = []
+
+        def deref(a, n, pat=pat, over=over):
             k = a - _MEM - offset
             if 0 <= k < nbytes:
                 return pat[k]
             if -offset <= k < 0:
                 return (b"#bundle\0" + bytes(offset))[k + offset]          # what stands in front of the field (a bundle's magic)
+            if nbytes <= k < nbytes + 8:
+                over.append(k)                   # a read behind the field: what stands there is not part of the value
+                return 0xEE
             raise FD.Unknown("read of byte %d of an %d-byte field" % (k, nbytes), n)
         holder = {}
 
@@ -376,8 +381,9 @@ def eval_extractor(unit, fn, nbytes, offset=0):
         holder["ev"] = ev
         got = ev.call_function(unit, fn, [_MEM])
         want = int.from_bytes(bytes(pat), "big")
-        if not isinstance(got, int) or (got & (2 ** (8 * nbytes) - 1)) != want or got < 0 or got >= 2 ** (8 * nbytes):
-            bad.append({"bytes": ["%02x" % b for b in pat], "got": ("%x" % (got & (2 ** 64 - 1))) if isinstance(got, int) else repr(got), "expected": "%x" % want})
+        if not isinstance(got, int) or (got & (2 ** (8 * nbytes) - 1)) != want or got < 0 or got >= 2 ** (8 * nbytes) or over:
+            bad.append({"bytes": ["%02x" % b for b in pat], "got": ("%x" % (got & (2 ** 64 - 1))) if isinstance(got, int) else repr(got), "expected": "%x" % want,
+                        "reads_behind_the_field": sorted(set(over))})
     return bad, len(pats)
 
 
@@ -399,7 +405,15 @@ def eval_emplacer(unit, fn, nbytes):
 
         def deref(a, n, mem=mem):
             return mem.get(a - _MEM, 0)
-        ev = FD.Eval(deref=deref, store=store, max_steps=2000)
+        holder = {}
+
+        def call(nm, vals, n):
+            fs = [f_ for f_ in unit.functions.get(nm, []) if unit.body(f_) is not None]
+            if len(fs) == 1 and fs[0] is not fn:
+                return holder["ev"].call_function(unit, fs[0], vals)        # built from a narrower codec of the unit
+            raise FD.Unknown("call to %s" % nm, n)
+        ev = FD.Eval(deref=deref, store=store, call=call, max_steps=4000)
+        holder["ev"] = ev
         val = int.from_bytes(bytes(pat), "big")
         args = [None, None]
         args[ptr[0]] = _MEM
